@@ -69,7 +69,29 @@ fn single_from(id: &str, places: &Value, dem: &Value, dims: usize) -> Single {
     builder.build().unwrap()
 }
 
+/// an additive objective that is constantly zero: pads a goal with further layers (goals of more than six layers exist:
+/// unassigned, priority, value, order, tours, cost, distance, ...)
+pub struct ZeroObjective;
+
+impl vrp_core::models::FeatureObjective for ZeroObjective {
+    fn fitness(&self, _: &InsertionContext) -> f64 {
+        0.
+    }
+    fn estimate(&self, _: &MoveContext<'_>) -> f64 {
+        0.
+    }
+}
+
+pub fn zero_features(n: usize) -> Vec<Feature> {
+    (0..n).map(|i| vrp_core::models::FeatureBuilder::default().with_name(&format!("zero{i}")).with_objective(ZeroObjective).build().unwrap()).collect()
+}
+
 pub fn build_goal(transport: Arc<dyn TransportCost>, obj: &str, dims: usize, extra: Vec<Feature>) -> GoalContext {
+    build_goal_padded(transport, obj, dims, extra, 0)
+}
+
+/// `pad` constantly-zero layers in front of the usual ones
+pub fn build_goal_padded(transport: Arc<dyn TransportCost>, obj: &str, dims: usize, extra: Vec<Feature>, pad: usize) -> GoalContext {
     let unassigned = MinimizeUnassignedBuilder::new("min-unassigned").build().unwrap();
     let tours = create_minimize_tours_feature("min-tours").unwrap();
     let tb = TransportFeatureBuilder::new("transport").set_transport_cost(transport).set_violation_code(ViolationCode(1));
@@ -79,7 +101,8 @@ pub fn build_goal(transport: Arc<dyn TransportCost>, obj: &str, dims: usize, ext
     } else {
         CapacityFeatureBuilder::<MultiDimLoad>::new("capacity").set_violation_code(ViolationCode(2)).build().unwrap()
     };
-    let mut features = vec![unassigned, tours, transport_feature, capacity];
+    let mut features = zero_features(pad);
+    features.extend(vec![unassigned, tours, transport_feature, capacity]);
     features.extend(extra);
     GoalContextBuilder::with_features(&features).unwrap().build().unwrap()
 }
@@ -143,7 +166,8 @@ pub fn build_case(case: &Value, env: Arc<Environment>) -> EvalCase {
         };
         extra.push(create_maximize_total_job_value_feature("value", read, Arc::new(|job, _| job), ViolationCode(3)).unwrap());
     }
-    let goal = build_goal(transport.clone(), case["obj"].as_str().unwrap_or("distance"), dims, extra);
+    let pad = case["pad_layers"].as_u64().unwrap_or(0) as usize;
+    let goal = build_goal_padded(transport.clone(), case["obj"].as_str().unwrap_or("distance"), dims, extra, pad);
     let problem = Arc::new(
         ProblemBuilder::default()
             .add_jobs(jobs.into_iter())
